@@ -1,35 +1,48 @@
-"""Contracts for the window based (Zliobaite) budget managers
-skactiveml/stream/budgetmanager/_estimated_budget_zliobaite.py  —  properties C03, C04, C10.
+"""Contracts for the stream budget managers — properties C03, C04, C10.
+
+  skactiveml/stream/budgetmanager/_estimated_budget_zliobaite.py   Fixed/Variable/RandomVariable/Split/Random
+  skactiveml/stream/budgetmanager/_threshold_budget.py             DensityBasedSplitBudgetManager
 
 Ghost state of a manager: N0 = instances processed so far, G0 = labels granted so far.
-Object invariant (C04):   Inv(u, G, N) :=  0 <= u <= B+1  /\  G <= u + N*(B+1)/w      with B = budget_*w
-It implies the bound of the property at every prefix:  G <= budget*N + N/w + budget*w + 1.
+Object invariants (C04):
+  window managers   Inv(u_t_, G, N) :=  0 <= u_t_ <= B+1  /\  G <= u_t_ + N*(B+1)/w        with B = budget_*w
+                    (implies  G <= budget*N + N/w + budget*w + 1  at every prefix)
+  density manager   Inv(u_, t_, G, N) :=  t_ = N /\ u_ = G /\ 0 <= u_ /\ u_ < budget*t_ + 1
+                    (implies  G <= budget*N + 1)
 
-Units (each is verified on the function body parsed from /repo on this run):
-  <M>.query_by_utility   loop invariant = Inv on the temporaries; result strictly increasing, in range (C10);
-                         a label is granted only on a path whose condition contains the budget guard (C04);
-                         every field of self (incl. the RNG position) is unchanged at return (C03)
-  <M>.update             Inv is re-established given that every granted instance had budget left (C04);
-                         one iteration of update equals one iteration of query_by_utility (C10, step equivalence)
-  <M>._validate_data     initialisation establishes Inv with G=N=0 and is idempotent (C03)
+Units (each verified on the function body parsed from /repo on this run):
+  <M>.query_by_utility   loop invariant = Inv on the temporaries; result strictly increasing and in range (C10);
+                         an index is appended only on a path whose condition contains the budget guard (C04);
+                         every field of self, incl. the RNG position, is unchanged at return (C03)
+  <M>.update             Inv is re-established given granted_ok (C04); update never raises on a query result (C10);
+                         one iteration of update == one iteration of the real query loop on the committed state (C10)
+  <M>._validate_data     initialisation establishes Inv with G=N=0; a second call changes nothing (C03)
 """
-import ast
 import z3
 
-from pyvc.se import (State, ArrData, ListData, ObjData, RngData, Opaque, Ref, LoopSpec, fresh, fresh_fn, fresh_sel, to_real,
-                     to_int, I, R, B, FV, is_z3, Unsupported)
-from pyvc.unit import se_unit, returns, raises
+from pyvc.se import (State, ArrData, ListData, ObjData, RngData, Opaque, Ref, LoopSpec, Engine, fresh, fresh_fn, fresh_sel,
+                     to_real, to_int, I, R, B, FV, is_z3, Unsupported)
+from pyvc.unit import se_unit, returns, raises, get_repo
 from pyvc.lib import Lib
 
-F = "skactiveml/stream/budgetmanager/_estimated_budget_zliobaite.py"
+FZ = "skactiveml/stream/budgetmanager/_estimated_budget_zliobaite.py"
+FT = "skactiveml/stream/budgetmanager/_threshold_budget.py"
+WIN = {"tmp_u_t": "u_t_", "tmp_theta": "theta_"}
 MANAGERS = {
-    "FixedUncertaintyBudgetManager": dict(params=["w", "budget", "classes"], fitted=["u_t_"]),
-    "VariableUncertaintyBudgetManager": dict(params=["w", "budget", "theta", "s"], fitted=["u_t_", "theta_"]),
-    "RandomVariableUncertaintyBudgetManager": dict(params=["w", "budget", "theta", "s", "delta", "random_state"],
-                                                   fitted=["u_t_", "theta_", "random_state_"]),
-    "SplitBudgetManager": dict(params=["w", "budget", "theta", "s", "v", "random_state"],
-                               fitted=["u_t_", "theta_", "random_state_"]),
-    "RandomBudgetManager": dict(params=["w", "budget", "random_state"], fitted=["u_t_", "random_state_"]),
+    "FixedUncertaintyBudgetManager": dict(file=FZ, params=["w", "budget", "classes"], fitted=["u_t_"], tmps=WIN, kind="window"),
+    "VariableUncertaintyBudgetManager": dict(file=FZ, params=["w", "budget", "theta", "s"], fitted=["u_t_", "theta_"], tmps=WIN,
+                                             kind="window"),
+    "RandomVariableUncertaintyBudgetManager": dict(file=FZ, params=["w", "budget", "theta", "s", "delta", "random_state"],
+                                                   fitted=["u_t_", "theta_", "random_state_"], tmps=WIN, kind="window",
+                                                   rng_equiv=False),
+    "SplitBudgetManager": dict(file=FZ, params=["w", "budget", "theta", "s", "v", "random_state"],
+                               fitted=["u_t_", "theta_", "random_state_"], tmps=WIN, kind="window", rng_equiv=True),
+    "RandomBudgetManager": dict(file=FZ, params=["w", "budget", "random_state"], fitted=["u_t_", "random_state_"], tmps=WIN,
+                                kind="window", rng_equiv=False, rng_bulk=True),
+    "DensityBasedSplitBudgetManager": dict(file=FT, params=["budget", "theta", "s", "delta", "random_state"],
+                                           fitted=["u_", "t_", "theta_", "random_state_"],
+                                           tmps={"tmp_u": "u_", "tmp_t": "t_", "tmp_theta": "theta_"}, kind="density",
+                                           rng_equiv=False),
 }
 INLINE = {"_validate_data", "_validate_budget", "_validate_theta", "_validate_random_state"}
 
@@ -57,26 +70,25 @@ def stream_lib():
     return L
 
 
+def real(v):
+    return to_real(v)[1]
+
+
 class Sym:
     """the symbolic pre-state of a manager"""
 
     def __init__(self, st, cls, fitted=True):
         self.cls = cls
+        self.spec = spec = MANAGERS[cls]
         self.w = z3.Int("w")
         self.b = z3.Real("budget")
-        self.theta = z3.Real("theta")
-        self.s = z3.Real("s")
-        self.v = z3.Real("v")
-        self.delta = z3.Real("delta")
-        self.u0 = z3.Real("u_t0")
-        self.th0 = z3.Real("theta0")
+        self.theta, self.s, self.v, self.delta = z3.Real("theta"), z3.Real("s"), z3.Real("v"), z3.Real("delta")
         self.ncls = z3.Int("n_classes")
         self.G0 = z3.Real("G0")     # ghost: labels granted so far
         self.N0 = z3.Real("N0")     # ghost: instances processed so far
         self.stream = z3.Function("rng_stream", I, R)
-        self.pos0 = z3.Int("rng_pos0")
-        self.aux0 = z3.Int("rng_aux0")
-        spec = MANAGERS[cls]
+        self.pos0, self.aux0 = z3.Int("rng_pos0"), z3.Int("rng_aux0")
+        self.init = {"u_t_": z3.Real("u_t0"), "theta_": z3.Real("theta0"), "u_": z3.Real("u0"), "t_": z3.Int("t0")}
         fields = {}
         for p in spec["params"]:
             if p == "classes":
@@ -89,31 +101,49 @@ class Sym:
             else:
                 fields[p] = getattr(self, p)
         self.rng = None
+        self.fitted = fitted
         if fitted:
             for f in spec["fitted"]:
-                if f == "u_t_":
-                    fields[f] = self.u0
-                elif f == "theta_":
-                    fields[f] = self.th0
-                elif f == "random_state_":
+                if f == "random_state_":
                     self.rng = st.alloc(RngData(self.stream, self.pos0, self.aux0))
                     fields[f] = self.rng
+                else:
+                    fields[f] = self.init[f]
             fields["budget_"] = self.b
         self.obj = st.alloc(ObjData(cls, fields))
         self.Bw = self.b * z3.ToReal(self.w)
 
-    def Inv(self, u, G, N):
-        return z3.And(u >= 0, u <= self.Bw + 1, G <= u + N * (self.Bw + 1) / z3.ToReal(self.w))
+    # vals: dict field -> term for the numeric state fields (u_t_ / u_, t_)
+    def vals0(self):
+        return {f: self.init[f] for f in self.spec["fitted"] if f != "random_state_"}
+
+    def Inv_parts(self, vals, G, N):
+        if self.spec["kind"] == "window":
+            u = real(vals["u_t_"])
+            return [("u_nonneg", u >= 0), ("u_le_B1", u <= self.Bw + 1),
+                    ("grants", G <= u + N * (self.Bw + 1) / z3.ToReal(self.w))]
+        u, t = real(vals["u_"]), real(vals["t_"])
+        return [("t_is_N", t == N), ("u_is_G", u == G), ("u_nonneg", u >= 0),
+                ("spent", u < self.b * t + 1)]
+
+    def Inv(self, vals, G, N):
+        return z3.And(*[g for _, g in self.Inv_parts(vals, G, N)])
 
     def bound(self, G, N):
-        return G <= self.b * N + N / z3.ToReal(self.w) + self.Bw + 1
+        if self.spec["kind"] == "window":
+            return G <= self.b * N + N / z3.ToReal(self.w) + self.Bw + 1
+        return G <= self.b * N + 1
+
+    def guard(self, vals):
+        """'budget is left' in the state `vals` *before* the instance is counted"""
+        if self.spec["kind"] == "window":
+            return real(vals["u_t_"]) / z3.ToReal(self.w) < self.b
+        return real(vals["u_"]) / (real(vals["t_"]) + 1) < self.b
 
     def requires(self, st):
-        st.assume(self.N0 >= 0, self.G0 >= 0, self.Inv(self.u0, self.G0, self.N0))
-
-
-def real(v):
-    return to_real(v)[1]
+        st.assume(self.N0 >= 0, self.G0 >= 0, self.Inv(self.vals0(), self.G0, self.N0))
+        if self.spec["kind"] == "density":
+            st.assume(self.init["t_"] >= 0)
 
 
 def list_sorted_below(q, k):
@@ -129,17 +159,17 @@ def self_fields(st, sym):
     return st.get(sym.obj).fields
 
 
-def frame_goals(st0_fields, st, sym):
+def frame_goals(fields0, st0, st, sym):
     """every field of self at return equals the field before the call (RNG: stream, position and aux counter)"""
     goals = []
     cur = self_fields(st, sym)
-    for k in sorted(set(st0_fields) | set(cur)):
-        a, b = st0_fields.get(k), cur.get(k)
+    for k in sorted(set(fields0) | set(cur)):
+        a, b = fields0.get(k), cur.get(k)
         if a is None or b is None:
             goals.append((f"frame.{k}", z3.BoolVal(False)))
             continue
         if isinstance(a, Ref) and isinstance(b, Ref):
-            da, db = sym._st0.get(a), st.get(b)
+            da, db = st0.get(a), st.get(b)
             if isinstance(da, RngData) and isinstance(db, RngData):
                 goals.append((f"frame.{k}", z3.And(da.pos == db.pos, da.aux == db.aux, z3.BoolVal(da.stream.eq(db.stream)))))
             elif isinstance(da, ListData) and isinstance(db, ListData):
@@ -158,15 +188,31 @@ def frame_goals(st0_fields, st, sym):
     return goals
 
 
+def tmp_vals(s, sym):
+    """state fields as currently held in the temporaries of query_by_utility"""
+    out = {}
+    for tmp, f in sym.spec["tmps"].items():
+        if tmp in s.env and f in sym.spec["fitted"]:
+            out[f] = s.env[tmp]
+    return out
+
+
+def field_vals(s, sym):
+    f = self_fields(s, sym)
+    return {k: f[k] for k in sym.spec["fitted"] if k != "random_state_"}
+
+
 # ------------------------------------------------------------------------------------------ query_by_utility
 def unit_query(cls):
+    F = MANAGERS[cls]["file"]
+
     def setup(E, st):
         sym = Sym(st, cls)
         n = z3.Int("n")
         st.assume(n >= 0)
         util = st.alloc(ArrData((n,), fresh_sel("util", "f"), "f"))
         sym.requires(st)
-        sym._st0 = st.fork()
+        st0 = st.fork()
         sym.n = n
         fields0 = dict(self_fields(st, sym))
 
@@ -174,19 +220,17 @@ def unit_query(cls):
             q = s.get(s.env["queried_indices"])
             G = sym.G0 + z3.ToReal(to_int(q.n))
             N = sym.N0 + z3.ToReal(k)
-            out = [("budget", sym.Inv(real(s.env["tmp_u_t"]), G, N))] + list_sorted_below(q, k)
-            return out
+            return [("Inv." + nm, g) for nm, g in sym.Inv_parts(tmp_vals(s, sym), G, N)] + list_sorted_below(q, k)
 
         def step(E, head, end, k):
             # C04 guard obligation: an index is appended in this iteration only if budget was left in the head state
             qh, qe = head.get(head.env["queried_indices"]), end.get(end.env["queried_indices"])
             granted = to_int(qe.n) > to_int(qh.n)
-            u = real(head.env["tmp_u_t"])
-            return [("grant_only_with_budget", z3.Implies(granted, u / z3.ToReal(sym.w) < sym.b)),
+            return [("grant_only_with_budget", z3.Implies(granted, sym.guard(tmp_vals(head, sym)))),
                     ("appends_current_index", z3.Implies(granted, z3.And(to_int(qe.n) == to_int(qh.n) + 1,
                                                                         to_int(qe.sel(to_int(qh.n))) == k))),
                     ("at_most_one", z3.Or(to_int(qe.n) == to_int(qh.n), to_int(qe.n) == to_int(qh.n) + 1))]
-        return {"args": [sym.obj, util], "sym": sym, "fields0": fields0,
+        return {"args": [sym.obj, util], "sym": sym, "fields0": fields0, "st0": st0,
                 "loop_specs": {"loop0": LoopSpec(inv=inv, step=step)}}
 
     def post(E, ctx, outs):
@@ -194,6 +238,8 @@ def unit_query(cls):
         rets = returns(outs)
         if not rets:
             E.oblige("reaches.return", [], z3.BoolVal(False))
+        if "loop0" not in E.reached:
+            E.oblige("loop.reached", [], z3.BoolVal(False))
         for o in rets:
             st = o.state
             if not (isinstance(o.value, Ref) and isinstance(st.get(o.value), ListData)):
@@ -205,12 +251,192 @@ def unit_query(cls):
             E.oblige("ensures.C04.bound", st, sym.bound(G, N))
             for nm, g in list_sorted_below(q, sym.n):
                 E.oblige("ensures.C10.result." + nm, st, g)
-            for nm, g in frame_goals(ctx["fields0"], st, sym):
+            for nm, g in frame_goals(ctx["fields0"], ctx["st0"], st, sym):
                 E.oblige("ensures.C03." + nm, st, g)
-    return se_unit(f"zliobaite.{cls}.query_by_utility", F, f"{cls}.query_by_utility", cls, setup, post, inline=INLINE,
+    return se_unit(f"budget.{cls}.query_by_utility", F, f"{cls}.query_by_utility", cls, setup, post, inline=INLINE,
+                   lib_factory=stream_lib)
+
+
+# ------------------------------------------------------------------------------------------ update
+def step_summaries_of_query(cls):
+    """symbolically execute ONE iteration of the real query_by_utility loop from a shared symbolic head state
+    and return, per path, (hypotheses, granted, resulting numeric state, rng pos', aux')."""
+    repo = get_repo()
+    spec = MANAGERS[cls]
+    fn = repo.func(spec["file"], f"{cls}.query_by_utility")
+    st = State()
+    sym = Sym(st, cls)
+    n = z3.Int("nq")
+    st.assume(n >= 0)
+    util = st.alloc(ArrData((n,), fresh_sel("utilq", "f"), "f"))
+    shared = {"u_t_": z3.Real("H_u_t"), "theta_": z3.Real("H_theta"), "u_": z3.Real("H_u"), "t_": z3.Int("H_t"),
+              "P": z3.Int("H_pos"), "A": z3.Int("H_aux")}
+    summaries = []
+
+    def on_iter(E, s, k):
+        for tmp, f in spec["tmps"].items():
+            if tmp in s.env:
+                s.env[tmp] = shared[f]
+        rs = self_fields(s, sym).get("random_state_")
+        if isinstance(rs, Ref):
+            s.put(rs, RngData(sym.stream, shared["P"], shared["A"]))
+
+    def step(E, head, end, k):
+        qh, qe = head.get(head.env["queried_indices"]), end.get(end.env["queried_indices"])
+        granted = to_int(qe.n) > to_int(qh.n)
+        rs = self_fields(end, sym).get("random_state_")
+        pos, aux = (end.get(rs).pos, end.get(rs).aux) if isinstance(rs, Ref) else (shared["P"], shared["A"])
+        summaries.append(dict(pc=list(end.pc), granted=granted, vals={f: real(v) for f, v in tmp_vals(end, sym).items()},
+                              pos=pos, aux=aux))
+        return []
+    E = Engine(repo, cls=cls, file=spec["file"], lib=stream_lib(), loop_specs={"loop0": LoopSpec(on_iter=on_iter, step=step)},
+               inline=INLINE)
+    E.verify(fn, st, [sym.obj, util], cls=cls)
+    return shared, summaries
+
+
+def cq_fn():
+    """ghost: cq(k) = number of granted instances among the first k of the chunk (defined by unfolding)"""
+    return z3.Function("cq", I, I)
+
+
+def unit_update(cls, loop_label="loop0"):
+    spec = MANAGERS[cls]
+    F = spec["file"]
+
+    def setup(E, st):
+        sym = Sym(st, cls)
+        n, d, nq = z3.Int("n"), z3.Int("d"), z3.Int("n_q")
+        st.assume(n >= 0, d >= 1, nq >= 0)
+        cand = st.alloc(ArrData((n, d), fresh_sel("cand", "f", 2), "f"))
+        qi = ListData(nq, fresh_sel("qidx", "i"), "i")
+        qref = st.alloc(qi)
+        for nm, g in list_sorted_below(qi, n):      # requires: what query_by_utility ensures about its result
+            st.assume(g)
+        sym.requires(st)
+        sym.n = n
+        cq = cq_fn()
+        st.assume(cq(0) == 0)
+        shared, summaries = step_summaries_of_query(cls)
+        has_rng = "random_state_" in spec["fitted"]
+        cmp_rng = has_rng and spec.get("rng_equiv", False)
+
+        def cur_rng(s):
+            return s.get(self_fields(s, sym)["random_state_"]) if has_rng else None
+
+        def flag_at(s, k):
+            q = s.get(s.env["queried"])
+            return real(q.sel(k)) != 0
+
+        def inv(E, s, k, pre):
+            f = self_fields(s, sym)
+            return [("Inv." + nm, g) for nm, g in sym.Inv_parts(field_vals(s, sym), sym.G0 + z3.ToReal(cq(k)),
+                                                                sym.N0 + z3.ToReal(k))] + \
+                   [("cq", z3.And(cq(k) >= 0, cq(k) <= k)), ("budget_", real(f["budget_"]) == sym.b)]
+
+        def on_iter(E, s, k):
+            # ghost definition of cq by unfolding, and granted_ok for the current instance
+            g = flag_at(s, k)
+            s.assume(cq(k + 1) == cq(k) + z3.If(g, 1, 0))
+            s.assume(z3.Implies(g, sym.guard(field_vals(s, sym))))
+
+        def step(E, head, end, k):
+            goals = []
+            v0, v1 = field_vals(head, sym), field_vals(end, sym)
+            g = flag_at(head, k)
+            sub = [(shared[f], (real(v) if f != "t_" else to_int(v))) for f, v in v0.items()]
+            if cmp_rng:
+                sub += [(shared["P"], cur_rng(head).pos), (shared["A"], cur_rng(head).aux)]
+            for i, sm in enumerate(summaries):
+                hyp = z3.And(*[z3.substitute(c, *sub) for c in sm["pc"]]) if sm["pc"] else z3.BoolVal(True)
+                grant = z3.substitute(sm["granted"], *sub)
+                eqs = [real(v1[f]) == z3.substitute(sm["vals"][f], *sub) for f in v1]
+                if cmp_rng:
+                    eqs.append(cur_rng(end).pos == z3.substitute(sm["pos"], *sub))
+                    eqs.append(cur_rng(end).aux == z3.substitute(sm["aux"], *sub))
+                goals.append((f"C10.step_equiv.qpath{i}", z3.Implies(z3.And(hyp, grant == g), z3.And(*eqs))))
+            return goals
+        return {"args": [sym.obj, cand, qref], "sym": sym, "cq": cq, "summaries": summaries,
+                "loop_specs": {loop_label: LoopSpec(inv=inv, on_iter=on_iter, step=step)}, "cur_rng": cur_rng}
+
+    def post(E, ctx, outs):
+        sym, cq = ctx["sym"], ctx["cq"]
+        rets = returns(outs)
+        if not rets:
+            E.oblige("reaches.return", [], z3.BoolVal(False))
+        if not ctx["summaries"]:
+            E.oblige("query.step.extracted", [], z3.BoolVal(False))
+        if loop_label not in E.reached:
+            E.oblige("loop.reached." + loop_label, [], z3.BoolVal(False))
+        for o in raises(outs):
+            # update must accept every result of query (C10): no raising path under the precondition
+            E.oblige("C10.update_does_not_raise", o.state, z3.BoolVal(False), exc=str(o.value))
+        for o in rets:
+            G, N = sym.G0 + z3.ToReal(cq(sym.n)), sym.N0 + z3.ToReal(sym.n)
+            for nm, g in sym.Inv_parts(field_vals(o.state, sym), G, N):
+                E.oblige("ensures.C04.Inv." + nm, o.state, g)
+            E.oblige("ensures.C04.bound", o.state, sym.bound(G, N))
+            if spec.get("rng_bulk"):
+                rng = ctx["cur_rng"](o.state)
+                # the committed generator advances by exactly one uniform draw per instance: the draws query simulated
+                E.oblige("ensures.C10.rng_advanced_by_n", o.state, z3.And(rng.pos == sym.pos0 + sym.n, rng.aux == sym.aux0))
+    return se_unit(f"budget.{cls}.update", F, f"{cls}.update", cls, setup, post, inline=set(INLINE) | {"update"},
+                   lib_factory=stream_lib)
+
+
+# ------------------------------------------------------------------------------------------ _validate_data
+def unit_validate(cls):
+    """From a freshly constructed object: validation creates every fitted attribute, establishes Inv with G=N=0,
+    and a second validation changes nothing (idempotence, C03)."""
+    spec = MANAGERS[cls]
+    F = spec["file"]
+
+    def setup(E, st):
+        sym = Sym(st, cls, fitted=False)
+        util = st.alloc(ArrData((z3.Int("n"),), fresh_sel("util", "f"), "f"))
+        st.assume(z3.Int("n") >= 0)
+        return {"args": [sym.obj, util], "sym": sym}
+
+    def post(E, ctx, outs):
+        sym = ctx["sym"]
+        rets = returns(outs)
+        if not rets:
+            E.oblige("reaches.return", [], z3.BoolVal(False))
+        for o in rets:
+            f = self_fields(o.state, sym)
+            for a in spec["fitted"] + ["budget_"]:
+                E.oblige(f"init.creates.{a}", o.state, z3.BoolVal(a in f))
+            if not all(a in f for a in spec["fitted"]):
+                continue
+            for nm, g in sym.Inv_parts(field_vals(o.state, sym), z3.RealVal(0), z3.RealVal(0)):
+                E.oblige("init.C04.Inv." + nm, o.state, g)
+            E.oblige("init.budget_in_(0,1]", o.state, z3.And(real(f["budget_"]) > 0, real(f["budget_"]) <= 1))
+            if "w" in f:
+                E.oblige("init.w_positive", o.state, to_int(f["w"]) >= 1)
+            # idempotence: run the real validation a second time on the resulting state
+            st2 = o.state.fork()
+            fields1 = dict(f)
+            st1 = o.state.fork()
+            E2 = Engine(E.repo, cls=cls, file=F, lib=E.lib, inline=INLINE)
+            outs2 = E2.verify(E.repo.resolve_method(cls, "_validate_data")[1], st2, [sym.obj, ctx["args"][1]], cls=cls)
+            for o2 in outs2:
+                if o2.kind != "return":
+                    E.oblige("idempotent.no_raise", o2.state, z3.BoolVal(False))
+                    continue
+                for nm, g in frame_goals(fields1, st1, o2.state, sym):
+                    E.oblige("idempotent.C03." + nm, o2.state, g)
+    ci, m = get_repo().resolve_method(cls, "_validate_data")
+    return se_unit(f"budget.{cls}._validate_data", ci.file, f"{ci.name}._validate_data", cls, setup, post, inline=INLINE,
                    lib_factory=stream_lib)
 
 
 UNITS = {}
 for _c in MANAGERS:
     UNITS[f"{_c}.query_by_utility"] = unit_query(_c)
+    UNITS[f"{_c}._validate_data"] = unit_validate(_c)
+UNITS["FixedUncertaintyBudgetManager.update"] = unit_update("FixedUncertaintyBudgetManager", "EstimatedBudgetZliobaite.update.loop0")
+UNITS["VariableUncertaintyBudgetManager.update"] = unit_update("VariableUncertaintyBudgetManager")
+UNITS["RandomVariableUncertaintyBudgetManager.update"] = unit_update("RandomVariableUncertaintyBudgetManager")
+UNITS["SplitBudgetManager.update"] = unit_update("SplitBudgetManager")
+UNITS["RandomBudgetManager.update"] = unit_update("RandomBudgetManager", "EstimatedBudgetZliobaite.update.loop0")
+UNITS["DensityBasedSplitBudgetManager.update"] = unit_update("DensityBasedSplitBudgetManager")
